@@ -2,14 +2,20 @@
    here on the model with vm_compute.
      CInject  base.InjectJSONPropertiesFromBytes(b, kvs...)          -> Some result | None (error)
      CStrip   db.StripInternalProperties on a body with these keys   -> remaining keys (sorted), "found" flag
-     CWrite   one write path, end to end, on a body with these members -> refused(status) | stored members | tombstone *)
-From SG Require Export Base.Prelude Base.Bytes C19.Json C19.JsonSplice C19.Reserved.
+     CWrite   one write path, end to end, on a body with these members -> refused(status) | stored members | tombstone
+     CAccept  one entry point of Accept.v on a request text of this shape (duplicate keys, bytes after the object,
+              non-objects, null) -> refused(status) | panic | stored members + "the stored bytes are the request text" | tombstone
+     CRead    one read exit of ReadPath.v on a stored text with these keys (in text order) -> the members of the
+              response in order, each either the value of the i-th stored member or a value the gateway supplied *)
+From SG Require Export Base.Prelude Base.Bytes C19.Json C19.JsonSplice C19.Reserved C19.Accept C19.ReadPath.
 Open Scope N_scope.
 
 Inductive case :=
 | CInject (b : list N) (kvs : list (list N * list N)) (out : option (list N))
 | CStrip (keys kept : list (list N)) (found : bool)
-| CWrite (p : wpath) (body : list (list N * vk * bool)) (o : outcome).
+| CWrite (p : wpath) (body : list (list N * vk * bool)) (o : outcome)
+| CAccept (e : entry) (t : top) (r : result)
+| CRead (x : exit) (mt : meta) (stored : list (list N)) (trailing : bool) (out : option (list (list N * option N))).
 
 Definition pair_eqb (a b : list N * vk) : bool := bytes_eqb (fst a) (fst b) && vk_eqb (snd a) (snd b).
 
@@ -25,6 +31,35 @@ Definition outcome_eqb (a b : outcome) : bool :=
   | _, _ => false
   end.
 
+(* the import feed has no status to observe: a refusal is "not imported" *)
+Definition result_eqb (e : entry) (a b : result) : bool :=
+  match a, b with
+  | RRej s, RRej s' => match e with EImportFeed => true | _ => s =? s' end
+  | RPanic, RPanic => true
+  | RStored x vx, RStored y vy => same_members x y && Bool.eqb vx vy
+  | RTombstone, RTombstone => true
+  | _, _ => false
+  end.
+
+Fixpoint number_from {A} (i : N) (l : list A) : list (A * N) :=
+  match l with [] => [] | a :: r => (a, i) :: number_from (N.succ i) r end.
+
+Definition ov_obs (m : list N * ov N) : list N * option N :=
+  (fst m, match snd m with OU i => Some i | OG => None end).
+
+Definition obs_eqb (a b : list N * option N) : bool := bytes_eqb (fst a) (fst b) && option_eqb N.eqb (snd a) (snd b).
+
+Definition same_obs (a b : list (list N * option N)) : bool :=
+  (length a =? length b)%nat && forallb (fun x => existsb (obs_eqb x) b) a && forallb (fun x => existsb (obs_eqb x) a) b.
+
+(* a splice exit is compared member by member in order; a map exit re-marshals with sorted keys: as a set *)
+Definition read_eqb (x : exit) (a b : option (list (list N * option N))) : bool :=
+  match a, b with
+  | None, None => true
+  | Some u, Some v => if splices x then list_eqb obs_eqb u v else same_obs u v
+  | _, _ => false
+  end.
+
 Definition check (c : case) : bool :=
   match c with
   | CInject b kvs out => option_eqb bytes_eqb (inject b kvs) out
@@ -32,6 +67,10 @@ Definition check (c : case) : bool :=
       let body := map (fun k => (k, tt)) keys in
       list_eqb bytes_eqb (map fst (strip true body)) kept && Bool.eqb (strip_found true body) found
   | CWrite p body o => outcome_eqb (write p body) o
+  | CAccept e t r => result_eqb e (accept e t) r
+  | CRead x mt stored trailing out =>
+      read_eqb x (option_map (map ov_obs)
+                    (read (fun i : N => i) x mt {| sd_ms := number_from 0 stored; sd_trailing := trailing |})) out
   end.
 
 Definition mismatches (cs : list case) : list N := failing check cs.
